@@ -24,6 +24,7 @@ type TEv struct {
 	Ok     bool   `json:"ok"`
 	NilRet bool   `json:"nilret"`
 	Res    Dec    `json:"res"`
+	Res2   Dec    `json:"res2"` // parse only: the same string parsed into a destination that held other contents
 	Fl     int    `json:"fl"`
 	Err    string `json:"err"`
 	Panic  string `json:"panic"`
@@ -47,7 +48,7 @@ func strOf(b []int) string {
 }
 
 func newT(tk, fn string) TEv {
-	return TEv{K: "t", Tk: tk, Fn: fn, S: []int{}, D: none, Flags: []int{}, Out: []int{}, Res: none}
+	return TEv{K: "t", Tk: tk, Fn: fn, S: []int{}, D: none, Flags: []int{}, Out: []int{}, Res: none, Res2: none}
 }
 
 func short(s string) string {
@@ -101,6 +102,23 @@ func mkParse(fn, s string) (ev TEv) {
 	}
 	if ev.Ok && d != nil {
 		ev.Res = encDec(d)
+		// the same input into a destination with previous contents (C06)
+		used := &apd.Decimal{Form: apd.NaNSignaling, Negative: !d.Negative, Exponent: 77}
+		used.Coeff.SetInt64(123456789)
+		var err2 error
+		switch fn {
+		case "SetString", "NewFromString":
+			_, _, err2 = used.SetString(s)
+		case "UnmarshalText":
+			err2 = used.UnmarshalText([]byte(s))
+		case "ScanString":
+			err2 = used.Scan(s)
+		case "ScanBytes":
+			err2 = used.Scan([]byte(s))
+		}
+		if err2 == nil {
+			ev.Res2 = encDec(used)
+		}
 	}
 	return ev
 }
@@ -139,13 +157,12 @@ func decStr(d Dec) string {
 	if d.N {
 		s = "-"
 	}
-	switch d.F {
-	case 1:
-		return s + "Inf"
-	case 2:
-		return s + "sNaN"
-	case 3:
-		return s + "NaN"
+	if d.F >= 1 && d.F <= 3 {
+		name := s + []string{"", "Inf", "sNaN", "NaN"}[d.F]
+		if len(d.C) > 0 || d.E != 0 {
+			name += fmt.Sprintf("[stale %sE%d]", bigOfLimbs(d.C).String(), d.E)
+		}
+		return name
 	}
 	c := bigOfLimbs(d.C).String()
 	if len(c) > 40 {
